@@ -509,9 +509,38 @@ class Machine:
             return Opaque('const:' + c)        # opaque: any use other than passing it along is unmodelled and raises there
         return Opaque('const:' + c)
 
+    def eval_promoted(s, st, fr, c):
+        """`const path::f::promoted[i]`: a 'static temporary hoisted out of f.  Its body (one block of assignments, no calls) is
+        evaluated once per use; the locals it refers to stay allocated, as 'static data does"""
+        tail = '::' + '::'.join(c.split('::')[-2:])
+        cands = [n for n in s.fns if n.startswith('const ') and n.endswith(tail)]
+        if len(cands) > 1:
+            own = [n for n in cands if s.fns[n].crate == fr.fn.crate]
+            if own: cands = own
+        if len(cands) > 1:
+            # same function name in several impls: the one whose impl location is the current function's
+            loc = re.search(r'<impl at [^>]*>', fr.fn.name)
+            if loc: cands = [n for n in cands if loc.group(0) in n] or cands
+        if len(cands) != 1: return None
+        f = s.fns[cands[0]]; bl = blocks_of(f)
+        if len(bl) != 1: return None
+        stmts, term = bl['bb0']
+        if term[0] != 'return' or any(sm[0] not in ('assign', 'nop') for sm in stmts): return None
+        loc = {l: st.alloc(UNINIT) for l in itertools.chain(['_0'], f.locals)}
+        pf = Frame('mir', fn=f, loc=loc, bb='bb0')
+        for sm in stmts:
+            if sm[0] != 'assign': continue
+            val = s.rvalue(st, pf, sm[2]); root, path = s.resolve(st, pf, sm[1]); s.store(st, root, path, val)
+        return st.heap[loc['_0']]
+
     def operand(s, st, fr, op):
         k = op[0]
-        if k == 'const': return s.const(op[1])
+        if k == 'const':
+            v = s.const(op[1])
+            if isinstance(v, Opaque) and v.tag.startswith('const:') and '::promoted[' in v.tag:
+                r = s.eval_promoted(st, fr, op[1])
+                if r is not None: return r
+            return v
         if k == 'fn': return FnItem(op[1])
         root, path = s.resolve(st, fr, op[1]); v = s.load(st, root, path)
         if v is UNINIT: raise InternalError(f'read of uninitialised {op[1]} in {fr.fn.name} {fr.bb}')
